@@ -73,3 +73,46 @@ Theorem failed_op_restored_ok :
   let sh2 := run_h (step_h sort_pnames_fixed) [OWriteRgs [[(w_dir, [20])]] SKNone false] sh1 in
   map snd (abs (fst sh2)) = [[0; 1; 2]; [20]].
 Proof. vm_compute. reflexivity. Qed.
+
+(* ---- wave 4: a failed operation, any kind that writes data, any failure position ---- *)
+From Pq Require Import Proofs.EditProofs.
+
+Lemma written_prefix_paths es j torn : forall p, In p (map fst (written_prefix es j torn)) -> In p (map fst es).
+Proof.
+  intros p H. assert (F : forall q, In q (map fst (firstn j es)) -> In q (map fst es)).
+  { intros q Hq. apply in_map_iff in Hq. destruct Hq as [e [E He]]. apply in_map_iff. exists e. split; [exact E|].
+    rewrite <- (firstn_skipn j es). apply in_or_app. now left. }
+  unfold written_prefix in H. destruct torn as [t|]; [|now apply F].
+  destruct (rev (firstn j es)) as [|last before] eqn:R; [now apply F|].
+  apply F. apply in_map_iff in H. destruct H as [e [E He]]. apply in_rev in He.
+  assert (In p (map fst (rev (firstn j es)))).
+  { rewrite R. cbn [map]. destruct He as [He|He]; [subst e; cbn in E; now left | right; apply in_map_iff; exists e; tauto]. }
+  rewrite map_rev in H. now apply in_rev in H.
+Qed.
+
+(* the handle is EXACTLY as before, it is coherent with the disk, the summary and num_rows on disk are as before, and - when
+   the operation's new data is well formed - every referenced file is untouched: a fresh open reads what it read before *)
+Theorem failed_op_state_unchanged s o j torn :
+  let sh' := fail_op (s, open_h s) o j torn in
+  snd sh' = open_h s /\ coherent sh' /\ st_sum (fst sh') = st_sum s /\ st_num (fst sh') = st_num s /\ abs (fst sh') = abs s
+  /\ (wf_op o -> forall e, In e (st_sum s) -> lookup (fst e) (st_dir (fst sh')) = lookup (fst e) (st_dir s)).
+Proof.
+  cbn zeta. unfold fail_op. cbn [h_sum open_h].
+  destruct (op_rgs o) as [rgs|] eqn:Ho; [|unfold coherent; cbn [fst snd]; repeat split; reflexivity].
+  destruct (find_max_part (map fst (st_sum s))) as [off|] eqn:Hoff; [|unfold coherent; cbn [fst snd]; repeat split; reflexivity].
+  unfold coherent, abs. cbn [fst snd st_sum st_num st_dir]. repeat split.
+  intros W e He. apply put_files_other. intros Hin. apply written_prefix_paths in Hin.
+  apply in_map_iff in Hin. destruct Hin as [e' [E' He']].
+  assert (Wr : wf_rgs rgs) by (destruct o; cbn in Ho; inversion Ho; subst; exact W).
+  apply (new_entries_fresh (map fst (st_sum s)) off rgs e' Wr Hoff He'). rewrite E'. apply in_map_iff. exists e. tauto.
+Qed.
+
+(* ... so a history continued through the same handle starts from a coherent handle: C09_handle_refines applies to it *)
+Corollary continue_after_failed_op sortp s o j torn ops :
+  let s1 := fst (fail_op (s, open_h s) o j torn) in
+  run_h (step_h sortp) ops (fail_op (s, open_h s) o j torn) = (run sortp ops s1, open_h (run sortp ops s1)).
+Proof.
+  cbn zeta. destruct (failed_op_state_unchanged s o j torn) as [H1 [H2 _]]. cbn zeta in H1, H2.
+  destruct (fail_op (s, open_h s) o j torn) as [s1 h1] eqn:E. cbn [fst snd] in *. unfold coherent in H2. cbn [fst snd] in H2.
+  rewrite H2. apply handle_refines.
+Qed.
